@@ -123,8 +123,10 @@ copy_an_data(int32 infile_id, int32 outfile_id, int32 ref_in, int32 tag_in, int3
         ann_id,     /* an annotation identifier */
         ann_out,    /* an annotation identifier */
         ann_length, /* length of the text in an annotation */
+        text_length, /* length of the text to write */
         n_anno;
-    int   i;   /* position of an annotation */
+    int32 *ann_list = NULL; /* identifiers of the annotations of this object */
+    int    i;               /* position of an annotation */
     char *buf; /* buffer to hold the read annotation */
     int   is_label = (type == AN_DATA_LABEL) ? 1 : 0;
     int   ret      = 0;
@@ -143,19 +145,30 @@ copy_an_data(int32 infile_id, int32 outfile_id, int32 ref_in, int32 tag_in, int3
         return -1;
     }
 
+    /* Get the identifiers of the annotations attached to this object */
+    if (n_anno > 0) {
+        if ((ann_list = (int32 *)malloc((size_t)n_anno * sizeof(int32))) == NULL) {
+            printf("Failed to get memory for the annotations of <%s>\n", path);
+            return -1;
+        }
+        if (ANannlist(an_id, type, (uint16)tag_in, (uint16)ref_in, ann_list) == FAIL) {
+            printf("Failed to get annotations for <%s>\n", path);
+            free(ann_list);
+            return -1;
+        }
+    }
+
     for (i = 0; i < n_anno; i++) {
         /*-------------------------------------------------------------------------
          * read
          *-------------------------------------------------------------------------
          */
-        if ((ann_id = ANselect(an_id, i, type)) == FAIL) {
-            printf("Failed to select AN %d of <%s>\n", i, path);
-            continue;
-        }
+        ann_id = ann_list[i];
         if ((ann_length = ANannlen(ann_id)) == FAIL) {
             printf("Failed to get AN %d length of <%s>\n", i, path);
             continue;
         }
+        text_length = ann_length;
 
         /*
          * Read the data label.  Note that the size of the buffer,
@@ -192,7 +205,7 @@ copy_an_data(int32 infile_id, int32 outfile_id, int32 ref_in, int32 tag_in, int3
             continue;
         }
         /* Write the annotation  */
-        if (ANwriteann(ann_out, buf, ann_length) == FAIL) {
+        if (ANwriteann(ann_out, buf, text_length) == FAIL) {
             printf("Failed to write AN %d of <%s>\n", i, path);
         }
         if (ANendaccess(ann_out) == FAIL) {
@@ -202,6 +215,8 @@ copy_an_data(int32 infile_id, int32 outfile_id, int32 ref_in, int32 tag_in, int3
         }
         free(buf);
     }
+
+    free(ann_list);
 
     /* Terminate access to the AN interface */
     if (ANend(an_id) == FAIL) {
